@@ -150,7 +150,9 @@ func nativeValidate(repo, hdir, wd string, eng *Engine, results []*HarnessResult
 		}
 		for i := range hr.Findings {
 			f := &hr.Findings[i]
-			if f.Vector == nil {
+			if f.Vector == nil || f.EngineOnly {
+				// no witness vector, or a harness whose native body is a no-op
+				// (symbolic type descriptors, self-referential types)
 				f.Confirmed = "n/a"
 				continue
 			}
